@@ -63,7 +63,8 @@ class SchedulerQueue:
     def peek_last_event_dt(self) -> Optional[datetime.datetime]:
         ret = None
         if self._queue:
-            ret = self._queue[-1].when
+            # The queue is a heap, so the last slot is not necessarily the job that is due last.
+            ret = max(scheduled_job.when for scheduled_job in self._queue)
         return ret
 
     def pop(self) -> Tuple[datetime.datetime, SchedulerJob]:
